@@ -94,6 +94,10 @@ CHECKS = {
             'For every history inside the bounds the two servers produce the same application event log per session (kind, payload, order, reason of client/application ends), hand the client the same messages in the same order on the same transport, '
             'answer every request of the step with the same status, and agree on liveness and transport of every session; silence-caused ends are only required within the heartbeat bound on both.',
             'Trusted: CrossHair (selector enumeration), z3, the two simulated environments. Requests blocked by known finding F6 are not compared.', '§3 C18'),
+    'C10': (SIM + '; a real Client/AsyncClient (http_session= seam, stubbed requests / websocket-client / aiohttp transports) connected to a real Server/AsyncServer in one kernel; solver-enumerated pair, transports, burst sizes, payload kinds, idle heartbeat cycles, disconnecting side',
+            'For every conversation inside the bounds, for all 2x2 implementation pairs and the three transport choices: both sides see one connect, agree on the transport, every message sent by either side (bursts up to the bound, text/JSON/binary) is received exactly once and equal, '
+            'idle connections survive several heartbeat cycles, and a disconnect by either side is observed exactly once on each side.',
+            'Trusted: CrossHair (selector enumeration), z3, the simulated environment and client transport stubs.', '§3 C10'),
 }
 
 NOT_BUILT = 'check not built yet in this round (see DESIGN.md §8 build order); not claimed until it runs'
